@@ -504,7 +504,32 @@ def _loop_counter_plus(ex, lid, v: Term, k: int) -> bool:
                 lr = ex.loops[lid]
                 if is_const(lr.init.get(x.args[1], C(None))) and cval(lr.init[x.args[1]]) == 0 and _is_incr(lr.next.get(x.args[1]), x, 1):
                     return True
+            if x.op == "len" and unsnap(x.args[0]).op == "ref" and _one_append_per_iteration(ex, lid, unsnap(x.args[0])):
+                # len(L) of a list that is empty before the loop and gets exactly one element per completed iteration: the 0-based iteration count
+                return True
     return False
+
+
+def _one_append_per_iteration(ex, lid, lst: Term) -> bool:
+    made = [e for e in ex.trace if e.kind in ("new", "newlist", "literal") and unsnap(e.d.get("result", NONE)) is lst]
+    producers = [e for e in ex.trace if e.kind == "mutate" and unsnap(e.d["obj"]) is lst]
+    if len(producers) != 1 or producers[0].d["how"] != "append":
+        return False
+    e = producers[0]
+    loops = [f[1] for f in e.ctx if f[0] == "loop"]
+    if not loops or loops[-1] != lid:
+        return False
+    lr = ex.loops[lid]
+    ctx = list(e.ctx)
+    k = next(i for i, f in enumerate(ctx) if f[0] == "loop" and f[1] == lid)
+    inner = [f for f in ctx[k + 1:] if f[0] in ("if", "loop", "try", "except") and not (f[0] == "if" and lr.cond is not None and f[1] is lr.cond)]
+    if inner:
+        return False
+    # nothing is in the list when the loop starts: the heap object was created empty (its recorded history starts with this append)
+    o = getattr(ex, "last_heap", {}).get(lst.args[0])
+    if o is None or o.exact:
+        return o is not None and o.exact and len(o.items) == 0
+    return all(how != "init" for _, _, how in o.items)
 
 
 # ===================================================================================== writer-side semantic rules
@@ -731,6 +756,7 @@ def envelope_writer_rules(m: Bf3Model, chk, pid):
         arg = unsnap(w_hex.d["args"][0])
         # arg == upper(hex(rawdata[pos:pos+K])) + "\n"
         line_ok = False
+        while_stop = None
         K = T["hex_bytes_per_line"]
         if arg.op == "bin" and arg.args[0] == "Add" and is_const(arg.args[2]) and cval(arg.args[2]) == "\n":
             up = meth_call(unsnap(arg.args[1]))
@@ -740,15 +766,27 @@ def envelope_writer_rules(m: Bf3Model, chk, pid):
                     sl = unsnap(hx[0])
                     if sl.op == "slice" and unsnap(sl.args[0]).op == "param" and unsnap(sl.args[0]).args[0] == "rawdata" and sl.args[3] is NONE:
                         lo, hi = unsnap(sl.args[1]), unsnap(sl.args[2])
-                        pos = lr.target
-                        if lo is pos and hi.op == "bin" and hi.args[0] == "Add" and ((unsnap(hi.args[1]) is pos and is_const(hi.args[2]) and cval(hi.args[2]) == K) or (unsnap(hi.args[2]) is pos and is_const(hi.args[1]) and cval(hi.args[1]) == K)):
+                        pos = unsnap(lr.target) if lr.kind == "for" else None
+                        if lr.kind == "while" and lr.cond is not None:
+                            # while pos < stop: ...; pos += K   -- the same positions as range(0, stop, K)
+                            rc = rel(lr.cond, True)
+                            if rc[0] == "rel" and rc[1] == "Lt" and unsnap(rc[2]).op == "loopvar" and unsnap(rc[2]).args[0] == lid:
+                                pv = unsnap(rc[2])
+                                if is_const(lr.init.get(pv.args[1], C(None))) and cval(lr.init[pv.args[1]]) == 0 and _is_incr(lr.next.get(pv.args[1]), pv, K):
+                                    pos = pv
+                                    while_stop = unsnap(rc[3])
+                        if pos is not None and lo is pos and hi.op == "bin" and hi.args[0] == "Add" and ((unsnap(hi.args[1]) is pos and is_const(hi.args[2]) and cval(hi.args[2]) == K) or (unsnap(hi.args[2]) is pos and is_const(hi.args[1]) and cval(hi.args[1]) == K)):
                             line_ok = True
         if not line_ok:
             ok, why = False, "a data line is not upper-case hex of rawdata[pos:pos+%d] followed by a newline (%s)" % (K, show(arg, 6))
         else:
             it = unsnap(lr.iter) if lr.iter is not None else None
             rng_ok = False
-            if it is not None and it.op == "range" and len(it.args[0]) == 3:
+            if lr.kind == "while":
+                c = _len_plus_const(while_stop, "rawdata")
+                rng_ok = c is not None and 0 <= c < K
+                it = while_stop
+            elif it is not None and it.op == "range" and len(it.args[0]) == 3:
                 a0, a1, a2 = [unsnap(x) for x in it.args[0]]
                 if is_const(a0) and cval(a0) == 0 and is_const(a2) and cval(a2) == K:
                     # stop = len(rawdata) + c with 0 <= c < K
